@@ -460,7 +460,8 @@ def _check_pm(ctx, idx, reqs, pending):
                 if ctx._c19_float_errors > 60:
                     ctx.hist('float_unreadable', path)
                     return
-            ctx.fail(dict(case, path=path, frame=frame, **({'single_lut': True} if single_lut else {})),
+            ctx.fail(dict(case, path=path, frame=frame, **({'single_lut': True} if single_lut else {}),
+                          **({'history': h['history']} if 'history' in h else {})),
                      detail or 'differs from the input plane', site=path)
 
     # ---- L1: the data set itself
@@ -708,6 +709,16 @@ def _check_pm(ctx, idx, reqs, pending):
                             v = np.asarray(v)[0]
                     ops.append({'op': kind, 'f': f, 'ai': ai})
                     got.append(list(np.ascontiguousarray(v).astype(v.dtype.newbyteorder('<')).tobytes()) if s1 == 'ok' else 'err')
+                    if s1 == 'ok' and isinstance(v, np.ndarray) and f < F:
+                        good_ = _raw_equal(v, planes[f])
+                        # the caller owns what a read returns: overwrite it in place (as windowing / masking code does); later
+                        # reads of this object -- cached or not -- must be unaffected (audit 2; /repo d078db8)
+                        if v.flags.writeable and v.size:
+                            v[...] = 0 if v.dtype.kind != 'f' else np.nan
+                            ctx.hist('history_write_into_result', state)
+                        obs(f'{tag}/history-{kind}', good_, f'frame {f} read {state} differs from the stored plane', f, float=is_float,
+                            history=state)
+                        continue
                     if f < F:
                         obs(f'{tag}/history-{kind}', s1 == 'ok' and _raw_equal(v, planes[f]), v if s1 != 'ok' else
                             f'frame {f} read {state} differs from the stored plane', f, float=is_float, history=state)
@@ -773,6 +784,19 @@ def _pm_refusals(ctx, reqs=None, pending=None):
         cases.append((f'dtype {dt}', lambda dt=dt: build(base.astype(dt), maps, model=(False, 1, 2))))
     for shp in ((24,), (1, 2, 3, 4, 1), (1, 1, 2, 3, 4, 1)):
         cases.append((f'shape {shp}', lambda shp=shp: build(base.reshape(shp), maps, model=(False, 1, 2))))
+    # planes Rows / Columns (VR US, not 0) cannot describe: 0 or more than 65535 rows / columns, in 2-D, 3-D and 4-D arrays, every dtype
+    # kind that is admitted (audit 2; /repo 5a4fe2e); the shapes at the edge (65535) must be accepted
+    for dt_, shp in (('uint16', (2, 0, 4)), ('uint16', (2, 3, 0)), ('uint8', (2, 0, 0)), ('float32', (2, 0, 4)), ('float64', (2, 3, 0)),
+                     ('uint8', (2, 65536, 1)), ('uint8', (2, 1, 65536)), ('uint8', (2, 70000, 1)), ('uint16', (2, 0, 4, 1)), ('uint8', (2, 1, 65536, 1))):
+        nested_ = len(shp) == 4
+        cases.append((f'shape {dt_} {shp}', lambda dt_=dt_, shp=shp, nested_=nested_: build(np.zeros(shp, dt_), [maps] if nested_ else maps,
+                                                                                          model=(nested_, 1, 2))))
+    cases.append(('2-D with 0 rows', lambda: build(np.zeros((0, 4), np.uint16), maps, s=src[:1])))
+    for shp in ((2, 65535, 1), (2, 1, 65535)):
+        st_e, v_e = build(np.zeros(shp, np.uint8), maps, model=(False, 1, 2))
+        ctx.case(kind='pm-refusal', outcome='accepted' if st_e == 'ok' else 'REFUSED', what=f'edge shape {shp}')
+        if st_e != 'ok':
+            ctx.fail({'kind': 'pm-refusal', 'what': f'edge shape {shp}'}, f'a map with 65535 rows / columns was refused: {v_e}', site='pm-refusal')
     cases.append(('planes != positions', lambda: build(base[:1], maps, model=(False, 1, 2))))
     cases.append(('3 planes, 2 positions', lambda: build(np.zeros((3, 3, 4), np.uint16), maps, model=(False, 1, 2))))
     cases.append(('4-D with flat mappings', lambda: build(np.zeros((2, 3, 4, 2), np.uint16), maps, model=(False, 1, 2))))
@@ -1433,6 +1457,12 @@ def attribute(failure, open_findings):
     if 'C19-float-frames-unreadable' in ids and c.get('kind') == 'pm' and str(c.get('dtype', '')).startswith('float') \
             and (site.startswith('eager/') or site.startswith('lazy/')) and site not in ('eager/pixel_array', 'eager/open', 'lazy/open') \
             and isinstance(d, str) and d.startswith('AttributeError') and ('PixelData' in d or 'PixelRepresentation' in d):
+        # on the in-memory object the stored-frame reads SUCCEED once pixel_array was decoded (float_reads_depend_on_history): an
+        # AttributeError there is not the finding
+        stored_read = any(k in site for k in ('get_stored_frame', 'history-stored', 'history-pixel_array'))
+        after_cache = 'reread-' in site or c.get('history') == 'after pixel_array'
+        if site.startswith('eager/') and stored_read and after_cache:
+            return None
         return 'C19-float-frames-unreadable'
     # C19-sc-bits-allocated-12: only SCImage(uint16 array, bits_allocated=12) in a native syntax, and only its three faces:
     # the object says Bits Allocated 12, pydicom refuses exactly that value, values >= 4096 are not checked
